@@ -2789,6 +2789,9 @@ def groupby_reduce(
             f"Cannot reduce along {nax} axes when the (broadcasted) `by` arrays have only {by_.ndim} dimensions."
         )
     if nax < by_.ndim:
+        if by_.shape != array.shape[-by_.ndim :]:
+            # size-1 dimensions of `by`: every kept slice needs its own copy of the labels
+            by_ = np.broadcast_to(by_, array.shape[-by_.ndim :])
         by_ = _move_reduce_dims_to_end(by_, tuple(-array.ndim + ax + by_.ndim for ax in axis_))
         array = _move_reduce_dims_to_end(array, axis_)
         axis_ = tuple(array.ndim + np.arange(-nax, 0))
